@@ -1188,9 +1188,9 @@ def family_util():
 
 # ====================================================================== family 'comp'
 
-COMP_FIELDS = ('param guardL guardR exc binTarget binArg dim dimOf diagMat diagVal em e1 e2 outer ob inner ib emMat row col emLit '
+COMP_FIELDS = ('param extraParams defaults guardL guardR exc binTarget binArg dim dimOf diagMat diagVal em e1 e2 outer ob inner ib emMat row col emLit '
                'sets item loopOver body comps cIdx2 cAdd cNode cBound cIdx cLen cMem cList cIdx3 sizes sVar2 sVar sList ret').split()
-COMP_INT = {'diagVal': '0', 'emLit': '0', 'cAdd': '0', 'body': '[]', 'ret': '[]'}
+COMP_INT = {'diagVal': '0', 'emLit': '0', 'cAdd': '0', 'body': '[]', 'ret': '[]', 'extraParams': '[]', 'defaults': '[]'}
 
 
 def name_of(node, what):
@@ -1249,10 +1249,10 @@ def extract_comp(fn, path):
     r = Routine(fn.name, path)
     r.line = fn.lineno
     a = fn.args
-    if len(a.args) != 1 or a.vararg or a.kwarg or a.kwonlyargs or a.defaults:
-        r.bad(fn, 'expected exactly one parameter without default')
+    if len(a.args) < 1 or a.vararg or a.kwarg or a.kwonlyargs:
+        r.bad(fn, 'expected positional parameters only')
         return r
-    f = {'param': a.args[0].arg}
+    f = {'param': a.args[0].arg, 'extraParams': lst(q(x.arg) for x in a.args[1:]), 'defaults': lean_defaults(defaults_of(fn))}
     body = body_wo_doc(fn)
     if len(body) != 10:
         r.bad(fn, 'expected exactly 10 statements (guard, binarize, len, fill_diagonal, edge_map, union_sets, merge loop, comps, '
